@@ -181,5 +181,5 @@ var PreludeBuiltin = []struct{ Local, Global string }{
 	{"setfenv", "setfenv"}, {"getfenv", "getfenv"}, {"setmetatable", "setmetatable"}, {"getmetatable", "getmetatable"},
 	{"tsort", "table.sort"}, {"gsub", "string.gsub"}, {"select", "select"}, {"unpack", "unpack"},
 	{"tostring", "tostring"}, {"type", "type"}, {"rawequal", "rawequal"}, {"ipairs", "ipairs"},
-	{"rawget", "rawget"}, {"rawset", "rawset"},
+	{"rawget", "rawget"}, {"rawset", "rawset"}, {"strformat", "string.format"},
 }
